@@ -465,11 +465,18 @@ fn oracle(c: &Chan, op: &Op, epoch: i64, ok: bool, before: &Proj, after: &Proj,
 }
 
 pub fn run(cfg: &RunCfg) -> Report {
-    let mut rep = Report::new("C16", cfg.seed, &cfg.tier);
+    run_as(cfg, "C16", None)
+}
+
+/// The same campaign reported under another property id (C01 uses it for payment-channel
+/// solvency: the oracle kinds that are about funds), optionally with a fixed number of sequences
+/// and without the Lean driver.
+pub fn run_as(cfg: &RunCfg, prop: &'static str, fixed_seqs: Option<u64>) -> Report {
+    let mut rep = Report::new(prop, cfg.seed, &cfg.tier);
     rep.nontrivial_rule = "a sequence is non-trivial when at least one voucher was accepted and changed the amount owed or a lane; distinct = distinct hash of the op lines".into();
     let (nseq, maxlen) = if cfg.thorough() { (5000u64, 400u64) } else { (300, 60) };
-    let nseq = nseq * cfg.budget;
-    let mut lean = if cfg.use_lean { Some(LeanDriver::spawn("paych").expect("lean driver")) } else { None };
+    let nseq = fixed_seqs.unwrap_or(nseq * cfg.budget);
+    let mut lean = if cfg.use_lean && fixed_seqs.is_none() { Some(LeanDriver::spawn("paych").expect("lean driver")) } else { None };
     let mut seen = HashSet::new();
     let seqs: Vec<u64> = match cfg.only_seq { Some(k) => vec![k], None => (0..nseq).collect() };
     'seqs: for seq in seqs {
@@ -522,22 +529,22 @@ pub fn run(cfg: &RunCfg) -> Report {
             lines.push(b.line.clone());
             if res.ok() { rep.ops_ok += 1; } else { rep.err(&format!("{}:{}", opname, exit_class(res.code))); }
             let replay_hdr = vec![
-                format!("property C16 seed {} seq {} (re-run: ba_harness c16 --seed {} --only-seq {})", cfg.seed, seq, cfg.seed, seq),
+                format!("property {} (payment channel campaign) seed {} seq {} (re-run: ba_harness c16 --seed {} --only-seq {})", prop, cfg.seed, seq, cfg.seed, seq),
                 format!("failing step {}: {:?}", step, op),
             ];
             if res.panicked {
-                let path = write_replay("C16", &format!("{}-{}", cfg.seed, seq), &replay_hdr, &lines);
+                let path = write_replay(prop, &format!("paych-{}-{}", cfg.seed, seq), &replay_hdr, &lines);
                 rep.violations.push(Violation { kind: "panic".into(), detail: res.message.clone(), replay: path });
                 continue 'seqs;
             }
             if c.w.total_balance() != total_before {
-                let path = write_replay("C16", &format!("{}-{}", cfg.seed, seq), &replay_hdr, &lines);
+                let path = write_replay(prop, &format!("paych-{}-{}", cfg.seed, seq), &replay_hdr, &lines);
                 rep.violations.push(Violation { kind: "fil-not-conserved".into(), detail: String::new(), replay: path });
                 continue 'seqs;
             }
             let mut notes = vec![];
             if let Some((kind, detail)) = oracle(&c, &op, epoch, res.ok(), &before, &after, bal_before, &mut notes) {
-                let path = write_replay("C16", &format!("{}-{}", cfg.seed, seq), &replay_hdr, &lines);
+                let path = write_replay(prop, &format!("paych-{}-{}", cfg.seed, seq), &replay_hdr, &lines);
                 rep.violations.push(Violation { kind, detail, replay: path });
                 continue 'seqs;
             }
